@@ -1023,6 +1023,8 @@ pub fn run(t: &[&str]) -> String {
                 get(SectionId::DebugLineStr)
             )
         }
+        // the composed writer model (UnitGlueWr): the script machinery lives in c15.rs
+        "c11.glue" => crate::c15::run_glue(t),
         "c11.conv" => {
             // c11.conv <be> <mask> ops…: the script is written with Dwarf::write (stage 1, oracle), read back and
             // converted unit by unit; unit k goes out at once through ConvertUnit::write iff bit k of mask is set,
